@@ -98,15 +98,25 @@ theorem lbMax_sound (B : Bnds) (y : Asg) (as : List Var) (h : ∀ a ∈ as, inDo
     | nil => simp only [lbMax] at hL; exact ⟨a, by simp, (h a (by simp)).1 L hL⟩
     | cons b t' =>
       simp only [lbMax] at hL
+      have iht := fun r hr => ih (fun a' ha' => h a' (by simp only [List.mem_cons] at ha' ⊢; exact Or.inr ha')) r hr
       cases hl : (B a).lb with
-      | none => simp [hl, optMax2] at hL
-      | some l =>
+      | none =>
         cases hr : lbMax B (b :: t') with
-        | none => simp [hl, hr, optMax2] at hL
+        | none => simp [hl, hr, optMaxI] at hL
         | some r =>
-          simp only [hl, hr, optMax2, Option.some.injEq] at hL
-          obtain ⟨c, hc, hle⟩ := ih (fun a' ha' => h a' (by simp only [List.mem_cons] at ha' ⊢; exact Or.inr ha')) r hr
-          have ha := (h a (by simp)).1 l hl
+          simp only [hl, hr, optMaxI, Option.some.injEq] at hL
+          subst hL
+          obtain ⟨c, hc, hle⟩ := iht r hr
+          exact ⟨c, by simp only [List.mem_cons] at hc ⊢; exact Or.inr hc, hle⟩
+      | some l =>
+        have ha := (h a (by simp)).1 l hl
+        cases hr : lbMax B (b :: t') with
+        | none =>
+          simp only [hl, hr, optMaxI, Option.some.injEq] at hL
+          subst hL; exact ⟨a, by simp, ha⟩
+        | some r =>
+          simp only [hl, hr, optMaxI, Option.some.injEq] at hL
+          obtain ⟨c, hc, hle⟩ := iht r hr
           by_cases hlr : l ≤ r
           · simp [hlr] at hL; subst hL; exact ⟨c, by simp only [List.mem_cons] at hc ⊢; exact Or.inr hc, hle⟩
           · simp [hlr] at hL; subst hL; exact ⟨a, by simp, ha⟩
@@ -170,15 +180,25 @@ theorem ubMin_sound (B : Bnds) (y : Asg) (as : List Var) (h : ∀ a ∈ as, inDo
     | nil => simp only [ubMin] at hU; exact ⟨a, by simp, (h a (by simp)).2.1 U hU⟩
     | cons b t' =>
       simp only [ubMin] at hU
+      have iht := fun r hr => ih (fun a' ha' => h a' (by simp only [List.mem_cons] at ha' ⊢; exact Or.inr ha')) r hr
       cases hl : (B a).ub with
-      | none => simp [hl, optMin2] at hU
-      | some l =>
+      | none =>
         cases hr : ubMin B (b :: t') with
-        | none => simp [hl, hr, optMin2] at hU
+        | none => simp [hl, hr, optMinI] at hU
         | some r =>
-          simp only [hl, hr, optMin2, Option.some.injEq] at hU
-          obtain ⟨c, hc, hle⟩ := ih (fun a' ha' => h a' (by simp only [List.mem_cons] at ha' ⊢; exact Or.inr ha')) r hr
-          have ha := (h a (by simp)).2.1 l hl
+          simp only [hl, hr, optMinI, Option.some.injEq] at hU
+          subst hU
+          obtain ⟨c, hc, hle⟩ := iht r hr
+          exact ⟨c, by simp only [List.mem_cons] at hc ⊢; exact Or.inr hc, hle⟩
+      | some l =>
+        have ha := (h a (by simp)).2.1 l hl
+        cases hr : ubMin B (b :: t') with
+        | none =>
+          simp only [hl, hr, optMinI, Option.some.injEq] at hU
+          subst hU; exact ⟨a, by simp, ha⟩
+        | some r =>
+          simp only [hl, hr, optMinI, Option.some.injEq] at hU
+          obtain ⟨c, hc, hle⟩ := iht r hr
           by_cases hlr : l ≤ r
           · simp [hlr] at hU; subst hU; exact ⟨a, by simp, ha⟩
           · simp [hlr] at hU; subst hU; exact ⟨c, by simp only [List.mem_cons] at hc ⊢; exact Or.inr hc, hle⟩
